@@ -8,6 +8,15 @@
 //!   * checks what was received with an implementation-side oracle written from the property text
 //!     (string concatenation, `str::contains` after `to_ascii_lowercase`, brute-force longest prefix over
 //!     the route list, "every recorder once"), independent of the model and of aho-corasick / radix_trie.
+//!
+//! Round 2: besides finished `(patterns, ci)` filters the trees contain `FilterLayer`s made by arbitrary chains
+//! of the real builder calls (`default()` / `from_patterns`, `add_pattern`, `case_insensitive`, `use_dfa`; tree
+//! node `G`, stack layer `G`), ONE `FilterLayer` / `PrefixLayer` value applied several times with builder calls
+//! in between (`MG` / `MP`), prefixes with dots / blanks at the ends, route tables derived from one another
+//! (siblings, children), op names derived from the tree's own routes and patterns, bursts of recurring calls on
+//! one handle (also through clones), sizes beyond every small constant (record_many up to 2^20, names of
+//! kilobytes, 40 routes, 24 fan-out children, 130 patterns), and two small-scope enumerations (`enum_router`,
+//! `enum_updates`).  Answers to `u` ops are run-length encoded (`<ev>*k`).
 #![allow(dead_code)]
 
 use crate::c08::{unit_tok, UNITS};
@@ -118,10 +127,39 @@ impl HistogramFn for LogHandle {
 // ---------------------------------------------------------------------------------------------
 // recorder trees
 
+/// how a `FilterLayer` value comes into being
+#[derive(Clone, Debug)]
+enum FInit {
+    /// `FilterLayer::default()`
+    Default,
+    /// `FilterLayer::from_patterns(..)`
+    From(Vec<String>),
+}
+/// one `&mut self` builder call on a `FilterLayer`
+#[derive(Clone, Debug)]
+enum FOp {
+    Add(String),
+    Ci(bool),
+    Dfa(bool),
+}
+/// a `FilterLayer` built by an arbitrary chain of builder calls (no call, repeated setters, add_pattern …)
+#[derive(Clone, Debug)]
+struct FChain {
+    init: FInit,
+    ops: Vec<FOp>,
+}
+/// a step in the life of ONE `FilterLayer` value: a builder call or `.layer(inner)`
+#[derive(Clone, Debug)]
+enum LStep {
+    Cfg(FOp),
+    Layer(Tree),
+}
+
 #[derive(Clone, Debug)]
 enum LayerSpec {
     P(String),
     F { ci: bool, dfa: bool, pats: Vec<String> },
+    G(FChain),
 }
 
 #[derive(Clone, Debug)]
@@ -134,6 +172,12 @@ enum Tree {
     /// mask: 0 counter, 1 gauge, 2 histogram, 3 ALL
     R { dflt: Box<Tree>, routes: Vec<(u8, String, Tree)> },
     N(Vec<Tree>),
+    /// a `FilterLayer` built by a chain of builder calls, applied once
+    G(FChain, Box<Tree>),
+    /// ONE `FilterLayer` value changed and applied several times; the results are collected into a `Fanout`
+    MG { init: FInit, steps: Vec<LStep> },
+    /// ONE `PrefixLayer` value applied to several recorders; the results are collected into a `Fanout`
+    MP(String, Vec<Tree>),
 }
 
 const MASKS: [&str; 4] = ["c", "g", "h", "a"];
@@ -147,11 +191,78 @@ fn filter_tok(ci: bool, dfa: bool, pats: &[String]) -> String {
     s
 }
 
+impl FInit {
+    fn tok(&self) -> String {
+        match self {
+            FInit::Default => "d".into(),
+            FInit::From(pats) => {
+                let mut s = format!("f/{}", pats.len());
+                for p in pats {
+                    s.push('/');
+                    s.push_str(&hexs(p));
+                }
+                s
+            }
+        }
+    }
+}
+impl FOp {
+    fn tok(&self) -> String {
+        match self {
+            FOp::Add(p) => format!("a/{}", hexs(p)),
+            FOp::Ci(b) => format!("c/{}", *b as u8),
+            FOp::Dfa(b) => format!("u/{}", *b as u8),
+        }
+    }
+}
+impl FChain {
+    fn tok(&self) -> String {
+        let mut s = format!("g/{}/{}", self.init.tok(), self.ops.len());
+        for o in &self.ops {
+            s.push('/');
+            s.push_str(&o.tok());
+        }
+        s
+    }
+}
+
+/// reference semantics of the builder, from the documentation: `from_patterns` keeps the patterns it is given
+/// and is case sensitive ("Defaults to `false` i.e. searches are case sensitive"), `default()` has no pattern
+/// and is case sensitive, `add_pattern` "adds a pattern to match", `case_insensitive(b)` "sets the case
+/// sensitivity", `use_dfa` has no influence on what matches.  Returns (patterns, case_insensitive).
+struct RefCfg {
+    pats: Vec<String>,
+    ci: bool,
+}
+impl RefCfg {
+    fn new(init: &FInit) -> RefCfg {
+        match init {
+            FInit::Default => RefCfg { pats: vec![], ci: false },
+            FInit::From(p) => RefCfg { pats: p.clone(), ci: false },
+        }
+    }
+    fn apply(&mut self, op: &FOp) {
+        match op {
+            FOp::Add(p) => self.pats.push(p.clone()),
+            FOp::Ci(b) => self.ci = *b,
+            FOp::Dfa(_) => {}
+        }
+    }
+    fn of_chain(ch: &FChain) -> RefCfg {
+        let mut c = RefCfg::new(&ch.init);
+        for o in &ch.ops {
+            c.apply(o);
+        }
+        c
+    }
+}
+
 impl LayerSpec {
     fn tok(&self) -> String {
         match self {
             LayerSpec::P(p) => format!("p/{}", hexs(p)),
             LayerSpec::F { ci, dfa, pats } => filter_tok(*ci, *dfa, pats),
+            LayerSpec::G(ch) => ch.tok(),
         }
     }
 }
@@ -185,13 +296,50 @@ impl Tree {
                 }
                 s
             }
+            Tree::G(ch, t) => format!("{}/{}", ch.tok(), t.tok()),
+            Tree::MG { init, steps } => {
+                let mut s = format!("m/g/{}/{}", init.tok(), steps.len());
+                for st in steps {
+                    s.push('/');
+                    match st {
+                        LStep::Cfg(o) => s.push_str(&o.tok()),
+                        LStep::Layer(t) => {
+                            s.push_str("l/");
+                            s.push_str(&t.tok())
+                        }
+                    }
+                }
+                s
+            }
+            Tree::MP(p, ts) => {
+                let mut s = format!("m/p/{}/{}", hexs(p), ts.len());
+                for t in ts {
+                    s.push('/');
+                    s.push_str(&t.tok());
+                }
+                s
+            }
         }
+    }
+    /// the subtrees a `MG` node applies its layer value to
+    fn mg_inners(steps: &[LStep]) -> Vec<&Tree> {
+        steps.iter().filter_map(|s| if let LStep::Layer(t) = s { Some(t) } else { None }).collect()
     }
     fn bases(&self, acc: &mut Vec<usize>) {
         match self {
             Tree::Base(id) => acc.push(*id),
-            Tree::P(_, t) | Tree::S(_, t) => t.bases(acc),
+            Tree::P(_, t) | Tree::S(_, t) | Tree::G(_, t) => t.bases(acc),
             Tree::F { inner, .. } => inner.bases(acc),
+            Tree::MG { steps, .. } => {
+                for t in Tree::mg_inners(steps) {
+                    t.bases(acc);
+                }
+            }
+            Tree::MP(_, ts) => {
+                for t in ts {
+                    t.bases(acc);
+                }
+            }
             Tree::R { dflt, routes } => {
                 dflt.bases(acc);
                 for (_, _, t) in routes {
@@ -208,13 +356,15 @@ impl Tree {
     fn depth(&self) -> usize {
         match self {
             Tree::Base(_) => 0,
-            Tree::P(_, t) | Tree::S(_, t) => 1 + t.depth(),
+            Tree::P(_, t) | Tree::S(_, t) | Tree::G(_, t) => 1 + t.depth(),
             Tree::F { inner, .. } => 1 + inner.depth(),
+            Tree::MG { steps, .. } => 2 + Tree::mg_inners(steps).iter().map(|t| t.depth()).max().unwrap_or(0),
+            Tree::MP(_, ts) => 2 + ts.iter().map(|t| t.depth()).max().unwrap_or(0),
             Tree::R { dflt, routes } => 1 + routes.iter().map(|r| r.2.depth()).chain([dflt.depth()]).max().unwrap(),
             Tree::N(ts) => 1 + ts.iter().map(|t| t.depth()).max().unwrap_or(0),
         }
     }
-    fn kinds(&self, acc: &mut [usize; 5]) {
+    fn kinds(&self, acc: &mut [usize; 6]) {
         match self {
             Tree::Base(_) => {}
             Tree::P(_, t) => {
@@ -242,6 +392,24 @@ impl Tree {
                     t.kinds(acc);
                 }
             }
+            Tree::G(_, t) => {
+                acc[1] += 1;
+                t.kinds(acc)
+            }
+            Tree::MG { steps, .. } => {
+                acc[1] += 1;
+                acc[5] += 1;
+                for t in Tree::mg_inners(steps) {
+                    t.kinds(acc);
+                }
+            }
+            Tree::MP(_, ts) => {
+                acc[0] += 1;
+                acc[5] += 1;
+                for t in ts {
+                    t.kinds(acc);
+                }
+            }
         }
     }
 }
@@ -249,6 +417,34 @@ impl Tree {
 fn filter_layer(ci: bool, dfa: bool, pats: &[String]) -> FilterLayer {
     let mut f = FilterLayer::from_patterns(pats.iter());
     f.case_insensitive(ci).use_dfa(dfa);
+    f
+}
+
+fn init_layer(init: &FInit) -> FilterLayer {
+    match init {
+        FInit::Default => FilterLayer::default(),
+        FInit::From(pats) => FilterLayer::from_patterns(pats.iter()),
+    }
+}
+fn apply_fop(f: &mut FilterLayer, op: &FOp) {
+    match op {
+        FOp::Add(p) => {
+            f.add_pattern(p);
+        }
+        FOp::Ci(b) => {
+            f.case_insensitive(*b);
+        }
+        FOp::Dfa(b) => {
+            f.use_dfa(*b);
+        }
+    }
+}
+/// the real `FilterLayer` after the real builder calls of the chain (nothing is set that the chain does not set)
+fn chain_layer(ch: &FChain) -> FilterLayer {
+    let mut f = init_layer(&ch.init);
+    for o in &ch.ops {
+        apply_fop(&mut f, o);
+    }
     f
 }
 
@@ -261,6 +457,7 @@ macro_rules! push_fn {
                 None => Box::new(st),
                 Some((LayerSpec::P(p), rest)) => $next(st.push(PrefixLayer::new(p.clone())), rest),
                 Some((LayerSpec::F { ci, dfa, pats }, rest)) => $next(st.push(filter_layer(*ci, *dfa, pats)), rest),
+                Some((LayerSpec::G(ch), rest)) => $next(st.push(chain_layer(ch)), rest),
             }
         }
     };
@@ -303,6 +500,27 @@ fn build(t: &Tree, log: &Log) -> BoxRec {
             let mut b = FanoutBuilder::default();
             for t in ts {
                 b = b.add_recorder(build(t, log));
+            }
+            Box::new(b.build())
+        }
+        Tree::G(ch, inner) => Box::new(chain_layer(ch).layer(build(inner, log))),
+        Tree::MG { init, steps } => {
+            // one layer value: changed, applied, changed again, applied again …
+            let mut f = init_layer(init);
+            let mut b = FanoutBuilder::default();
+            for st in steps {
+                match st {
+                    LStep::Cfg(o) => apply_fop(&mut f, o),
+                    LStep::Layer(t) => b = b.add_recorder(f.layer(build(t, log))),
+                }
+            }
+            Box::new(b.build())
+        }
+        Tree::MP(p, ts) => {
+            let l = PrefixLayer::new(p.clone());
+            let mut b = FanoutBuilder::default();
+            for t in ts {
+                b = b.add_recorder(l.layer(build(t, log)));
             }
             Box::new(b.build())
         }
@@ -350,8 +568,8 @@ fn longest_routes(routes: &[(u8, String, Tree)], kind: usize, name: &str) -> Vec
 
 /// Does `got` (events per base recorder) agree with the property for an operation of `kind` entering `t`
 /// under the name `name`?  `expect(name_at_base)` = the events a base recorder reached under that name
-/// must have received.  Where the property leaves a choice (two routes with the same pattern for the same
-/// kind) either target is accepted.
+/// must have received.  For two routes with the same pattern for the same kind the later one counts
+/// (`add_route`: "If a matching route already exists, it will be overwritten").
 fn check(
     t: &Tree,
     kind: usize,
@@ -389,9 +607,53 @@ fn check(
                                 .map_err(|e| format!("stacked filter {:?} ci={} matches {:?}: {}", pats, ci, cur, e));
                         }
                     }
+                    LayerSpec::G(ch) => {
+                        let c = RefCfg::of_chain(ch);
+                        if pat_matches(&c.pats, c.ci, &cur) {
+                            return silent(inner, got).map_err(|e| {
+                                format!("stacked filter built by {:?} (patterns {:?} ci={}) matches {:?}: {}", ch, c.pats, c.ci, cur, e)
+                            });
+                        }
+                    }
                 }
             }
             check(inner, kind, &cur, expect, got)
+        }
+        Tree::G(ch, inner) => {
+            let c = RefCfg::of_chain(ch);
+            if pat_matches(&c.pats, c.ci, name) {
+                silent(inner, got).map_err(|e| {
+                    format!("filter built by {:?} (patterns {:?} ci={}) matches {:?}: {}", ch, c.pats, c.ci, name, e)
+                })
+            } else {
+                check(inner, kind, name, expect, got)
+                    .map_err(|e| format!("filter built by {:?} (patterns {:?} ci={}) does not match {:?}: {}", ch, c.pats, c.ci, name, e))
+            }
+        }
+        Tree::MG { init, steps } => {
+            // every `.layer()` uses the layer value as it is at that moment
+            let mut c = RefCfg::new(init);
+            let mut n = 0;
+            for st in steps {
+                match st {
+                    LStep::Cfg(o) => c.apply(o),
+                    LStep::Layer(t) => {
+                        let r = if pat_matches(&c.pats, c.ci, name) { silent(t, got) } else { check(t, kind, name, expect, got) };
+                        r.map_err(|e| {
+                            format!("reused FilterLayer, application {} (patterns {:?} ci={} at that moment), name {:?}: {}", n, c.pats, c.ci, name, e)
+                        })?;
+                        n += 1;
+                    }
+                }
+            }
+            Ok(())
+        }
+        Tree::MP(p, ts) => {
+            for (i, t) in ts.iter().enumerate() {
+                check(t, kind, &format!("{}.{}", p, name), expect, got)
+                    .map_err(|e| format!("reused PrefixLayer {:?}, application {}: {}", p, i, e))?;
+            }
+            Ok(())
         }
         Tree::R { dflt, routes } => {
             let cands = longest_routes(routes, kind, name);
@@ -402,7 +664,7 @@ fn check(
                 check(dflt, kind, name, expect, got).map_err(|e| format!("router default for {:?}: {}", name, e))
             } else {
                 let mut last_err = String::new();
-                for c in &cands {
+                for c in cands.last() {
                     let mut ok = check(&routes[*c].2, kind, name, expect, got);
                     if ok.is_ok() {
                         ok = silent(dflt, got).map_err(|e| format!("default: {}", e));
@@ -491,7 +753,8 @@ impl Upd {
 enum SOp {
     D { kind: usize, name: String, unit: Option<Unit>, desc: String },
     R { kind: usize, name: String, labels: Vec<(String, String)>, target: String, level: usize, module: Option<String> },
-    U { handle: usize, upd: Upd },
+    /// `via_clone`: the call is made on a fresh clone of the handle (handles are `Arc`s), which is then dropped
+    U { handle: usize, upd: Upd, via_clone: bool },
 }
 
 enum AnyHandle {
@@ -525,6 +788,28 @@ fn show(got: &Got) -> String {
     parts.join("|")
 }
 
+/// like `show`, with k > 1 consecutive identical events of one recorder written once as `<ev>*k`
+fn show_rle(got: &Got) -> String {
+    let mut parts: Vec<String> = vec![];
+    for (id, evs) in got.iter().filter(|(_, evs)| !evs.is_empty()) {
+        let mut items: Vec<String> = vec![];
+        let mut i = 0;
+        while i < evs.len() {
+            let mut j = i + 1;
+            while j < evs.len() && evs[j] == evs[i] {
+                j += 1;
+            }
+            items.push(if j - i > 1 { format!("{}*{}", evs[i], j - i) } else { evs[i].clone() });
+            i = j;
+        }
+        parts.push(format!("{}={}", id, items.join(";")));
+    }
+    if parts.is_empty() {
+        return "none".into();
+    }
+    parts.join("|")
+}
+
 fn name_class(s: &str) -> &'static str {
     if s.is_empty() {
         "empty"
@@ -541,6 +826,12 @@ fn trace(t: &Tree, kind: usize, name: &str, out: &mut Out) {
         Tree::Base(_) => {}
         Tree::P(p, inner) => {
             out.count(if p.is_empty() { "prefix: empty prefix" } else { "prefix: non-empty prefix" });
+            if p.ends_with('.') || p.starts_with('.') {
+                out.count("prefix: starts or ends with '.'");
+            }
+            if p.trim() != p {
+                out.count("prefix: starts or ends with white space");
+            }
             trace(inner, kind, &format!("{}.{}", p, name), out)
         }
         Tree::F { ci, pats, inner, .. } => {
@@ -556,6 +847,13 @@ fn trace(t: &Tree, kind: usize, name: &str, out: &mut Out) {
                     LayerSpec::P(p) => cur = format!("{}.{}", p, cur),
                     LayerSpec::F { ci, pats, .. } => {
                         if !trace_filter(pats, *ci, &cur, out) {
+                            return;
+                        }
+                    }
+                    LayerSpec::G(ch) => {
+                        trace_chain(ch, out);
+                        let c = RefCfg::of_chain(ch);
+                        if !trace_filter(&c.pats, c.ci, &cur, out) {
                             return;
                         }
                     }
@@ -585,6 +883,38 @@ fn trace(t: &Tree, kind: usize, name: &str, out: &mut Out) {
             } else {
                 out.count("router: single matching route");
             }
+            // does the name walk past the chosen route into parts of the trie that belong to routes which do not match?
+            let chosen_len = cands.last().map(|c| routes[*c].1.len());
+            let lcp = |a: &[u8], b: &[u8]| a.iter().zip(b.iter()).take_while(|(x, y)| x == y).count();
+            let others: Vec<&str> = routes
+                .iter()
+                .filter(|r| mask_covers(r.0, kind) && !name.starts_with(r.1.as_str()))
+                .map(|r| r.1.as_str())
+                .collect();
+            if others.iter().any(|r| lcp(r.as_bytes(), name.as_bytes()) > chosen_len.unwrap_or(0)) {
+                out.count("router: name shares more bytes with a non-matching route than the chosen route is long");
+            }
+            let mut branch = false;
+            for (i, r1) in others.iter().enumerate() {
+                for r2 in &others[..i] {
+                    let b = lcp(r1.as_bytes(), r2.as_bytes());
+                    if r1 != r2
+                        && name.as_bytes().starts_with(&r1.as_bytes()[..b])
+                        && b > chosen_len.unwrap_or(0)
+                        && !routes.iter().any(|r| mask_covers(r.0, kind) && r.1.as_bytes() == &r1.as_bytes()[..b])
+                    {
+                        branch = true;
+                    }
+                }
+            }
+            if branch {
+                out.count(if chosen_len.is_some() {
+                    "router: name passes a value-less branch point of two non-matching routes below the chosen route"
+                } else {
+                    "router: name passes a value-less branch point of two non-matching routes, no route matches"
+                });
+            }
+            out.count(&format!("router: {} routes", bucket(routes.len())));
             if let Some(c) = cands.last() {
                 if routes[*c].1.is_empty() {
                     out.count("router: chosen route is the empty pattern");
@@ -598,10 +928,99 @@ fn trace(t: &Tree, kind: usize, name: &str, out: &mut Out) {
             }
         }
         Tree::N(ts) => {
-            out.count(&format!("fanout: width {}", ts.len()));
+            out.count(&format!("fanout: width {}", bucket(ts.len())));
             for t in ts {
                 trace(t, kind, name, out);
             }
+        }
+        Tree::G(ch, inner) => {
+            trace_chain(ch, out);
+            let c = RefCfg::of_chain(ch);
+            if trace_filter(&c.pats, c.ci, name, out) {
+                trace(inner, kind, name, out)
+            }
+        }
+        Tree::MG { init, steps } => {
+            let mut c = RefCfg::new(init);
+            let (mut applied, mut changed_after_apply, mut verdicts) = (0, false, vec![]);
+            for st in steps {
+                match st {
+                    LStep::Cfg(o) => {
+                        c.apply(o);
+                        if applied > 0 && !matches!(o, FOp::Dfa(_)) {
+                            changed_after_apply = true;
+                        }
+                    }
+                    LStep::Layer(t) => {
+                        applied += 1;
+                        let pass = trace_filter(&c.pats, c.ci, name, out);
+                        verdicts.push(pass);
+                        if pass {
+                            trace(t, kind, name, out)
+                        }
+                    }
+                }
+            }
+            out.count(&format!("layer reuse: FilterLayer applied {} times", bucket(applied)));
+            if changed_after_apply {
+                out.count("layer reuse: FilterLayer changed after an application");
+            }
+            if verdicts.iter().any(|v| *v) && verdicts.iter().any(|v| !*v) {
+                out.count("layer reuse: applications of one FilterLayer value disagree on this name");
+            }
+        }
+        Tree::MP(p, ts) => {
+            out.count(&format!("layer reuse: PrefixLayer applied {} times", bucket(ts.len())));
+            for t in ts {
+                trace(t, kind, &format!("{}.{}", p, name), out);
+            }
+        }
+    }
+}
+
+fn len_bucket(n: usize) -> &'static str {
+    match n {
+        0..=15 => "0-15",
+        16..=149 => "16-149",
+        150..=999 => "150-999",
+        _ => "1000+",
+    }
+}
+
+fn bucket(n: usize) -> String {
+    match n {
+        0..=5 => n.to_string(),
+        6..=9 => "6-9".into(),
+        10..=19 => "10-19".into(),
+        20..=99 => "20-99".into(),
+        _ => "100+".into(),
+    }
+}
+
+fn trace_chain(ch: &FChain, out: &mut Out) {
+    out.count(match ch.init {
+        FInit::Default => "filter builder: FilterLayer::default()",
+        FInit::From(_) => "filter builder: from_patterns",
+    });
+    let (mut adds, mut cis, mut dfas) = (0, 0, 0);
+    for o in &ch.ops {
+        match o {
+            FOp::Add(_) => adds += 1,
+            FOp::Ci(_) => cis += 1,
+            FOp::Dfa(_) => dfas += 1,
+        }
+    }
+    out.count(&format!("filter builder: add_pattern × {}", bucket(adds)));
+    out.count(&format!("filter builder: case_insensitive called {} times", cis.min(3)));
+    out.count(&format!("filter builder: use_dfa called {} times", dfas.min(3)));
+    let c = RefCfg::of_chain(ch);
+    if c.pats.len() > 100 {
+        out.count("filter: more than 100 patterns (aho-corasick's automatic choice is no longer the DFA)");
+    }
+    for (i, p) in c.pats.iter().enumerate() {
+        if c.pats[..i].iter().any(|q| q != p && q.eq_ignore_ascii_case(p)) {
+            out.count("filter builder: pattern differs only in ASCII case from an earlier one");
+            break;
         }
     }
 }
@@ -624,10 +1043,10 @@ fn run_case(out: &mut Out, tree: &Tree, script: &[SOp]) {
     let log: Log = Arc::new(Mutex::new(vec![]));
     let top = build(tree, &log);
     out.op(&format!("layers new {}", tree.tok()), "ok");
-    let mut ks = [0usize; 5];
+    let mut ks = [0usize; 6];
     tree.kinds(&mut ks);
     out.count(&format!("tree: depth {}", tree.depth().min(6)));
-    for (i, n) in ["prefix", "filter", "stack", "router", "fanout"].iter().enumerate() {
+    for (i, n) in ["prefix", "filter", "stack", "router", "fanout", "reused layer value"].iter().enumerate() {
         if ks[i] > 0 {
             out.count(&format!("tree: has {}", n));
         }
@@ -636,6 +1055,7 @@ fn run_case(out: &mut Out, tree: &Tree, script: &[SOp]) {
         out.nontrivial();
     }
     let mut handles: Vec<Registered> = vec![];
+    let mut history: BTreeMap<usize, Vec<String>> = BTreeMap::new();
     for op in script {
         match op {
             SOp::D { kind, name, unit, desc } => {
@@ -653,6 +1073,7 @@ fn run_case(out: &mut Out, tree: &Tree, script: &[SOp]) {
                 );
                 out.count("op: describe");
                 out.count(&format!("name: {}", name_class(name)));
+                out.count(&format!("name: {} bytes", len_bucket(name.len())));
                 trace(tree, *kind, name, out);
                 let (k, u, d) = (KINDS[*kind], unit_tok(*unit), hexs(desc));
                 let expect = move |n: &str| vec![format!("D/{}/{}/{}/{}", k, hexs(n), u, d)];
@@ -695,9 +1116,18 @@ fn run_case(out: &mut Out, tree: &Tree, script: &[SOp]) {
                 out.count(&format!("delivered to {} recorders", got.len().min(4)));
                 handles.push(Registered { handle: h, kind: *kind, name: name.clone(), labels: ltok, meta: mtok });
             }
-            SOp::U { handle, upd } => {
+            SOp::U { handle, upd, via_clone } => {
                 let reg = &handles[*handle];
-                match (&reg.handle, upd) {
+                let cloned = if *via_clone {
+                    Some(match &reg.handle {
+                        AnyHandle::C(c) => AnyHandle::C(c.clone()),
+                        AnyHandle::G(g) => AnyHandle::G(g.clone()),
+                        AnyHandle::H(h) => AnyHandle::H(h.clone()),
+                    })
+                } else {
+                    None
+                };
+                match (cloned.as_ref().unwrap_or(&reg.handle), upd) {
                     (AnyHandle::C(c), Upd::CInc(v)) => c.increment(*v),
                     (AnyHandle::C(c), Upd::CAbs(v)) => c.absolute(*v),
                     (AnyHandle::G(g), Upd::GInc(v)) => g.increment(*v),
@@ -707,10 +1137,25 @@ fn run_case(out: &mut Out, tree: &Tree, script: &[SOp]) {
                     (AnyHandle::H(h), Upd::HMany(v, n)) => h.record_many(*v, *n),
                     _ => panic!("generator produced an update of the wrong kind"),
                 }
+                drop(cloned);
                 let got = drain(&log);
                 // compared as samples: a received record_many(v, n) is shown as n × record(v)
                 let norm: Got = got.iter().map(|(k, v)| (*k, normalise_updates(v))).collect();
-                out.op(&format!("layers u {} {}", handle, upd.tok()), &show(&norm));
+                out.op(&format!("layers u {} {}", handle, upd.tok()), &show_rle(&norm));
+                if *via_clone {
+                    out.count("update: through a clone of the handle");
+                }
+                // history of calls on this handle: is this call a repetition?
+                let hist = history.entry(*handle).or_insert_with(Vec::new);
+                if hist.last() == Some(&upd.tok()) {
+                    out.count("update: identical to the previous call on the same handle");
+                } else if hist.contains(&upd.tok()) {
+                    out.count("update: identical to an earlier call on the same handle, other calls in between");
+                }
+                hist.push(upd.tok());
+                if let Upd::HMany(_, n) = upd {
+                    out.count(&format!("record_many: count {}", match *n { 0..=4 => n.to_string(), 5..=255 => "5-255".into(), 256..=65535 => "256-65535".into(), _ => "65536+".into() }));
+                }
                 if got.values().flatten().any(|e| e.contains("/hm")) {
                     out.count("leaf received record_many itself (no fan-out on the way)");
                 }
@@ -749,9 +1194,117 @@ const SEGS: &[&str] = &[
     "k", "K", "ſ", "s", "S", "🦀", ".", "..", " ",
 ];
 const PREFIXES: &[&str] = &["", "p", "app", "APP", "é", "svc.x", "a"];
+/// prefixes a "tidying" `PrefixLayer::new` / `prefix_key` would alter: dots and white space at either end
+const ODD_PREFIXES: &[&str] = &["a.", ".a", ".", "..", "app..", " a", "a ", " ", "a\t", "\n", "x. ", "日本."];
+
+fn gen_prefix(r: &mut Rng) -> String {
+    if r.chance(1, 4) {
+        r.pick_str(ODD_PREFIXES).to_string()
+    } else {
+        r.pick_str(PREFIXES).to_string()
+    }
+}
 
 struct Pool {
     names: Vec<String>,
+    /// names derived from the route tables and filter patterns of the tree under test (see `hot_names`)
+    hot: Vec<String>,
+}
+
+/// the same string with its last character replaced by a "neighbour": same high nibble of the last byte
+/// (siblings below one nibble node of a radix trie), another high nibble, or one bit flipped
+fn sibling(r: &mut Rng, s: &str) -> String {
+    let mut cs: Vec<char> = s.chars().collect();
+    match cs.pop() {
+        None => r.pick_str(SEGS).to_string(),
+        Some(c) if c.is_ascii() => {
+            let b = c as u8;
+            let nb = match r.below(3) {
+                0 => (b & 0xf0) | ((b.wrapping_add(1 + r.below(15) as u8)) & 0x0f),
+                1 => b ^ (0x10 << r.below(3)),
+                _ => b ^ (1 << r.below(7)),
+            };
+            let nb = if nb == b || nb >= 0x80 { b ^ 1 } else { nb };
+            cs.push(nb as char);
+            cs.into_iter().collect()
+        }
+        Some(c) => {
+            // a neighbouring code point: shares all but the last UTF-8 byte (or its high nibble)
+            let n = char::from_u32(c as u32 ^ (1 << r.below(5))).unwrap_or('é');
+            cs.push(n);
+            cs.into_iter().collect()
+        }
+    }
+}
+
+fn common_prefix(a: &str, b: &str) -> String {
+    a.chars().zip(b.chars()).take_while(|(x, y)| x == y).map(|(x, _)| x).collect()
+}
+
+/// Names that probe the decision structures of THIS tree: for every route pattern / filter pattern, as seen
+/// from the top of the tree (the prefixes added above the node are stripped when the pattern starts with them).
+fn hot_names(t: &Tree, ctx: &str, acc: &mut Vec<String>) {
+    let strip = |p: &str| -> Option<String> { p.strip_prefix(ctx).map(|x| x.to_string()) };
+    let mut chain_pats = |c: &RefCfg, acc: &mut Vec<String>| {
+        for p in c.pats.iter().take(6) {
+            acc.push(p.clone());
+            if let Some(x) = strip(p) {
+                acc.push(x);
+            }
+        }
+    };
+    match t {
+        Tree::Base(_) => {}
+        Tree::P(p, inner) => hot_names(inner, &format!("{}.{}", p, ctx), acc),
+        Tree::F { pats, inner, .. } => {
+            chain_pats(&RefCfg { pats: pats.clone(), ci: false }, acc);
+            hot_names(inner, ctx, acc)
+        }
+        Tree::G(ch, inner) => {
+            chain_pats(&RefCfg::of_chain(ch), acc);
+            hot_names(inner, ctx, acc)
+        }
+        Tree::S(layers, inner) => {
+            let mut ctx2 = ctx.to_string();
+            for l in layers.iter().rev() {
+                match l {
+                    LayerSpec::P(p) => ctx2 = format!("{}.{}", p, ctx2),
+                    LayerSpec::F { pats, .. } => chain_pats(&RefCfg { pats: pats.clone(), ci: false }, acc),
+                    LayerSpec::G(ch) => chain_pats(&RefCfg::of_chain(ch), acc),
+                }
+            }
+            hot_names(inner, &ctx2, acc)
+        }
+        Tree::R { dflt, routes } => {
+            for (_, p, t) in routes {
+                if let Some(x) = strip(p) {
+                    acc.push(x);
+                }
+                hot_names(t, ctx, acc);
+            }
+            hot_names(dflt, ctx, acc)
+        }
+        Tree::N(ts) => {
+            for t in ts {
+                hot_names(t, ctx, acc);
+            }
+        }
+        Tree::MG { init, steps } => {
+            let mut c = RefCfg::new(init);
+            for st in steps {
+                match st {
+                    LStep::Cfg(o) => c.apply(o),
+                    LStep::Layer(t) => hot_names(t, ctx, acc),
+                }
+            }
+            chain_pats(&c, acc);
+        }
+        Tree::MP(p, ts) => {
+            for t in ts {
+                hot_names(t, &format!("{}.{}", p, ctx), acc);
+            }
+        }
+    }
 }
 
 fn flip_case(r: &mut Rng, s: &str) -> String {
@@ -799,13 +1352,55 @@ fn char_infix(r: &mut Rng, s: &str) -> String {
 impl Pool {
     fn new(r: &mut Rng) -> Pool {
         let n = r.range(2, 5);
-        Pool { names: (0..n).map(|_| gen_base_name(r)).collect() }
+        let mut names: Vec<String> = (0..n).map(|_| gen_base_name(r)).collect();
+        // size ceilings: now and then a name far beyond anything a fast path could be gated on
+        if r.chance(1, 10) {
+            let len = *r.pick(&[150usize, 151, 255, 256, 257, 1000, 4096]);
+            let unit = r.pick_str(&["x", "ab.", "é", "Z"]);
+            let mut long = names[0].clone();
+            while long.len() < len {
+                long.push_str(unit);
+            }
+            names.push(long);
+        }
+        Pool { names, hot: vec![] }
     }
     fn any(&self, r: &mut Rng) -> String {
         r.pick(&self.names).clone()
     }
+    /// a name aimed at the route tables / pattern sets of the tree: a pattern itself, extended, cut, with its
+    /// last character replaced by a neighbour, the common part of two patterns (± one more character)
+    fn hot_name(&self, r: &mut Rng) -> String {
+        let h = r.pick(&self.hot).clone();
+        match r.weighted(&[2, 3, 3, 2, 3, 2, 1]) {
+            0 => h,
+            1 => format!("{}{}", h, r.pick_str(&[".x", "x", "é", ".", "_total", "\u{1}", "~", "A"])),
+            2 => sibling(r, &h),
+            3 => {
+                let sib = sibling(r, &h);
+                format!("{}{}", sib, r.pick_str(&[".x", "x", ".req", "é"]))
+            }
+            4 => {
+                let g = r.pick(&self.hot).clone();
+                let c = common_prefix(&h, &g);
+                match r.below(3) {
+                    0 => c,
+                    1 => format!("{}{}", c, r.pick_str(&["x", "z", ".", "a", "b", "q", "é", "~", "\u{0}"])),
+                    _ => {
+                        let ext = format!("{}{}", c, h.chars().nth(c.chars().count()).map(|x| x.to_string()).unwrap_or_default());
+                        sibling(r, &ext)
+                    }
+                }
+            }
+            5 => char_prefix(r, &h),
+            _ => flip_case(r, &h),
+        }
+    }
     /// a name for an operation: equal to / extending / a prefix of / diverging from pool names
     fn op_name(&self, r: &mut Rng) -> String {
+        if !self.hot.is_empty() && r.chance(2, 5) {
+            return self.hot_name(r);
+        }
         let base = self.any(r);
         match r.weighted(&[1, 7, 6, 3, 2, 2, 1]) {
             0 => String::new(),
@@ -865,17 +1460,75 @@ impl Pool {
     }
 }
 
+/// how many patterns: mostly 0-3; now and then more than 4, and more than 100 (beyond which aho-corasick's
+/// automatic choice, taken for `use_dfa(false)` and `FilterLayer::default()`, is an NFA instead of the DFA)
+fn gen_pattern_count(r: &mut Rng) -> usize {
+    match r.weighted(&[40, 3, 2]) {
+        0 => r.weighted(&[1, 5, 4, 2]),
+        1 => r.range(5, 12),
+        _ => r.range(101, 130),
+    }
+}
+
+fn gen_patterns(r: &mut Rng, pool: &Pool, n: usize) -> Vec<String> {
+    // beyond a handful the set is padded with patterns that (mostly) do not occur in any name
+    (0..n).map(|i| if i < 6 || r.chance(1, 8) { pool.pattern(r) } else { format!("#{}#{}", i, r.pick_str(SEGS)) }).collect()
+}
+
 fn gen_filter(r: &mut Rng, pool: &Pool) -> (bool, bool, Vec<String>) {
-    let n = r.weighted(&[1, 5, 4, 2]);
-    ((r.chance(1, 2)), r.chance(1, 2), (0..n).map(|_| pool.pattern(r)).collect())
+    let n = gen_pattern_count(r);
+    ((r.chance(1, 2)), r.chance(1, 2), gen_patterns(r, pool, n))
+}
+
+fn gen_fop(r: &mut Rng, pool: &Pool, sofar: &[String]) -> FOp {
+    match r.weighted(&[5, 3, 2]) {
+        0 => FOp::Add(if !sofar.is_empty() && r.chance(1, 2) {
+            // a pattern related to one that is already there: the same again, or the same in another case
+            let q = r.pick(sofar).clone();
+            match r.below(4) {
+                0 => q,
+                1 => q.to_ascii_uppercase(),
+                2 => q.to_ascii_lowercase(),
+                _ => flip_case(r, &q),
+            }
+        } else {
+            pool.pattern(r)
+        }),
+        1 => FOp::Ci(r.chance(1, 2)),
+        _ => FOp::Dfa(r.chance(1, 2)),
+    }
+}
+
+fn gen_finit(r: &mut Rng, pool: &Pool) -> FInit {
+    if r.chance(1, 3) {
+        FInit::Default
+    } else {
+        let n = gen_pattern_count(r);
+        FInit::From(gen_patterns(r, pool, n))
+    }
+}
+
+/// a `FilterLayer` made by 0-6 builder calls (possibly none: the defaults stay; possibly the same setter twice)
+fn gen_chain(r: &mut Rng, pool: &Pool) -> FChain {
+    let init = gen_finit(r, pool);
+    let mut c = RefCfg::new(&init);
+    let mut ops = vec![];
+    for _ in 0..r.weighted(&[2, 3, 3, 2, 1, 1, 1]) {
+        let o = gen_fop(r, pool, &c.pats);
+        c.apply(&o);
+        ops.push(o);
+    }
+    FChain { init, ops }
 }
 
 fn gen_layer(r: &mut Rng, pool: &Pool) -> LayerSpec {
-    if r.chance(1, 2) {
-        LayerSpec::P(r.pick_str(PREFIXES).to_string())
-    } else {
-        let (ci, dfa, pats) = gen_filter(r, pool);
-        LayerSpec::F { ci, dfa, pats }
+    match r.below(4) {
+        0 | 1 => LayerSpec::P(gen_prefix(r)),
+        2 => {
+            let (ci, dfa, pats) = gen_filter(r, pool);
+            LayerSpec::F { ci, dfa, pats }
+        }
+        _ => LayerSpec::G(gen_chain(r, pool)),
     }
 }
 
@@ -890,7 +1543,7 @@ fn gen_tree(
     ctx: &str,
 ) -> Tree {
     let leaf = depth == 0 || *budget <= 0;
-    let k = if leaf { 0 } else { r.weighted(&[if root { 0 } else { 2 }, 2, 2, 4, 4, 3]) };
+    let k = if leaf { 0 } else { r.weighted(&[if root { 0 } else { 2 }, 2, 1, 4, 5, 3, 2, 1, 1]) };
     *budget -= 1;
     match k {
         0 => {
@@ -898,7 +1551,7 @@ fn gen_tree(
             Tree::Base(*next - 1)
         }
         1 => {
-            let p = r.pick_str(PREFIXES).to_string();
+            let p = gen_prefix(r);
             let ctx2 = format!("{}.{}", p, ctx);
             Tree::P(p, Box::new(gen_tree(r, pool, depth - 1, next, budget, false, &ctx2)))
         }
@@ -919,7 +1572,9 @@ fn gen_tree(
         }
         4 => {
             let dflt = Box::new(gen_tree(r, pool, depth - 1, next, budget, false, ctx));
-            let n = r.weighted(&[1, 2, 4, 4, 3, 2]);
+            // size ceilings: now and then far more routes than the usual handful (then with plain targets)
+            let many = r.chance(1, 12);
+            let n = if many { r.range(7, 40) } else { r.weighted(&[1, 2, 4, 4, 3, 2]) };
             let mut routes: Vec<(u8, String, Tree)> = vec![];
             // half of the patterns are prefixes of one focus name, so that several routes overlap on it
             let focus = pool.any(r);
@@ -928,6 +1583,22 @@ fn gen_tree(
                 // duplicated patterns on purpose
                 let pat = if !routes.is_empty() && r.chance(1, 4) {
                     routes[r.below(routes.len())].1.clone()
+                } else if !routes.is_empty() && r.chance(1, 3) {
+                    // a relative of an existing route: a sibling (same parent, neighbouring last character), a
+                    // child, or a child of a sibling — route tables whose trie has interior nodes without a value
+                    let q = routes[r.below(routes.len())].1.clone();
+                    match r.below(4) {
+                        0 => sibling(r, &q),
+                        1 => format!("{}{}", q, r.pick_str(&[".bar", ".baz", "a", "b", "q", ".", "é"])),
+                        2 => {
+                            let sib = sibling(r, &q);
+                            format!("{}{}", sib, r.pick_str(&["a", ".x", "é"]))
+                        }
+                        _ => {
+                            let cut = char_prefix(r, &q);
+                            format!("{}{}", cut, r.pick_str(&["a", "b", "q", "."]))
+                        }
+                    }
                 } else {
                     let tail = if r.chance(1, 2) { char_prefix(r, &focus) } else { pool.route(r) };
                     // below prefix layers: mostly routes that take the added prefixes into account
@@ -937,13 +1608,53 @@ fn gen_tree(
                         _ => format!("{}{}", ctx, tail),
                     }
                 };
-                routes.push((mask, pat, gen_tree(r, pool, depth.saturating_sub(2), next, budget, false, ctx)));
+                let sub = if many { 0 } else { depth.saturating_sub(2) };
+                routes.push((mask, pat, gen_tree(r, pool, sub, next, budget, false, ctx)));
             }
             Tree::R { dflt, routes }
         }
-        _ => {
+        5 => {
+            // size ceilings: now and then a wide fan-out (plain children)
+            if r.chance(1, 10) {
+                let w = r.range(6, 24);
+                return Tree::N((0..w).map(|_| gen_tree(r, pool, 0, next, budget, false, ctx)).collect());
+            }
             let w = r.weighted(&[1, 2, 5, 4, 2]);
             Tree::N((0..w).map(|_| gen_tree(r, pool, depth - 1, next, budget, false, ctx)).collect())
+        }
+        6 => {
+            let ch = gen_chain(r, pool);
+            Tree::G(ch, Box::new(gen_tree(r, pool, depth - 1, next, budget, false, ctx)))
+        }
+        7 => {
+            // one FilterLayer value: builder calls and applications interleaved
+            let init = gen_finit(r, pool);
+            let mut c = RefCfg::new(&init);
+            let mut steps = vec![];
+            let napply = r.range(2, 4);
+            let mut applied = 0;
+            while applied < napply {
+                if r.chance(1, 2) {
+                    let o = gen_fop(r, pool, &c.pats);
+                    c.apply(&o);
+                    steps.push(LStep::Cfg(o));
+                } else {
+                    steps.push(LStep::Layer(gen_tree(r, pool, depth.saturating_sub(2), next, budget, false, ctx)));
+                    applied += 1;
+                }
+            }
+            if r.chance(1, 2) {
+                // a change after the last application must not reach any of the recorders already built
+                let o = gen_fop(r, pool, &c.pats);
+                steps.push(LStep::Cfg(o));
+            }
+            Tree::MG { init, steps }
+        }
+        _ => {
+            let p = gen_prefix(r);
+            let ctx2 = format!("{}.{}", p, ctx);
+            let n = r.range(2, 4);
+            Tree::MP(p, (0..n).map(|_| gen_tree(r, pool, depth.saturating_sub(2), next, budget, false, &ctx2)).collect())
         }
     }
 }
@@ -969,6 +1680,9 @@ fn gen_upd(r: &mut Rng, kind: usize) -> Upd {
         _ => {
             if r.chance(1, 2) {
                 Upd::HRec(v)
+            } else if r.chance(1, 5) {
+                // size ceilings: counts beyond u8 / any small clamp (65536+ is in the corpus)
+                Upd::HMany(v, *r.pick(&[5usize, 8, 17, 64, 255, 256, 257, 1000]))
             } else {
                 Upd::HMany(v, r.weighted(&[1, 2, 2, 2, 1]))
             }
@@ -1004,7 +1718,19 @@ fn gen_script(r: &mut Rng, pool: &Pool, n: usize) -> Vec<SOp> {
             }
             _ => {
                 let h = r.below(kinds.len());
-                script.push(SOp::U { handle: h, upd: gen_upd(r, kinds[h]) });
+                if r.chance(1, 3) {
+                    // a burst of calls on ONE handle in which calls recur, back to back or with other calls in
+                    // between (a handle that remembered anything about earlier calls would show here)
+                    let a = gen_upd(r, kinds[h]);
+                    let b = gen_upd(r, kinds[h]);
+                    let pat: &[u8] = *r.pick(&[&[0u8, 0][..], &[0, 1, 0], &[0, 0, 0], &[0, 1, 1, 0], &[0, 1, 0, 1]]);
+                    for x in pat {
+                        let upd = if *x == 0 { a.clone() } else { b.clone() };
+                        script.push(SOp::U { handle: h, upd, via_clone: r.chance(1, 4) });
+                    }
+                } else {
+                    script.push(SOp::U { handle: h, upd: gen_upd(r, kinds[h]), via_clone: r.chance(1, 4) });
+                }
             }
         }
     }
@@ -1036,12 +1762,12 @@ fn full_script(names: &[&str]) -> Vec<SOp> {
                 module: None,
             });
             let upds = match kind {
-                0 => vec![Upd::CInc(3), Upd::CAbs(u64::MAX)],
-                1 => vec![Upd::GInc(1.5), Upd::GDec(f64::NAN), Upd::GSet(-0.0)],
-                _ => vec![Upd::HRec(2.5), Upd::HMany(1.0, 3), Upd::HMany(1.0, 0)],
+                0 => vec![Upd::CInc(3), Upd::CAbs(u64::MAX), Upd::CAbs(u64::MAX), Upd::CInc(3)],
+                1 => vec![Upd::GInc(1.5), Upd::GDec(f64::NAN), Upd::GSet(-0.0), Upd::GSet(-0.0), Upd::GInc(1.5), Upd::GSet(-0.0)],
+                _ => vec![Upd::HRec(2.5), Upd::HMany(1.0, 3), Upd::HMany(1.0, 0), Upd::HRec(2.5), Upd::HMany(1.0, 3)],
             };
-            for u in upds {
-                script.push(SOp::U { handle: nh, upd: u });
+            for (i, u) in upds.into_iter().enumerate() {
+                script.push(SOp::U { handle: nh, upd: u, via_clone: i % 3 == 2 });
             }
             nh += 1;
         }
@@ -1112,7 +1838,126 @@ fn corpus() -> Vec<(&'static str, Tree, Vec<SOp>)> {
             ],
         }),
     );
+    // route tables whose radix trie has interior nodes WITHOUT a value (the common part of two sibling routes),
+    // and names that walk through such a node without reaching either sibling
+    let siblings = Tree::R {
+        dflt: Box::new(b(0)),
+        routes: vec![
+            (3, s("foo"), b(1)),
+            (3, s("foo.bar"), b(2)),
+            (3, s("foo.baz"), b(3)),
+            (3, s("app"), b(4)),
+            (0, s("app.db.a"), b(5)),
+            (0, s("app.db.q"), b(6)),
+            (1, s("日本"), b(7)),
+            (1, s("日本語x"), b(8)),
+            (1, s("日本誠x"), b(9)),
+        ],
+    };
+    let sibling_names = [
+        "foo", "foo.", "foo.b", "foo.ba", "foo.bax", "foo.bay.requests", "foo.bar", "foo.barn", "foo.baz.x", "foo.c", "fo",
+        "app.db.", "app.db.z", "app.db.a", "app.db.b", "app.db.r", "app.d", "日本語", "日本誠", "日本語y", "日本",
+    ];
+    let rootless_siblings = Tree::R {
+        dflt: Box::new(b(0)),
+        routes: vec![(3, s("ab"), b(1)), (3, s("aq"), b(2)), (0, s("xyz1"), b(3)), (0, s("xyz2"), b(4)), (3, s(""), b(5))],
+    };
+    let chain = |init: FInit, ops: Vec<FOp>| Tree::G(FChain { init, ops }, Box::new(b(0)));
+    let from = |pats: &[&str]| FInit::From(pats.iter().map(|p| s(p)).collect());
+    let bnames = ["tokio.x", "Tokio.x", "TOKIO", "x.tokio", "hyper", "Hyper", "", "bb8", "BB8"];
+    let reuse_filter = Tree::MG {
+        init: from(&["tokio"]),
+        steps: vec![
+            LStep::Layer(b(0)),
+            LStep::Cfg(FOp::Add(s("hyper"))),
+            LStep::Layer(b(1)),
+            LStep::Cfg(FOp::Ci(true)),
+            LStep::Layer(Tree::N(vec![b(2), b(3)])),
+            LStep::Cfg(FOp::Ci(false)),
+            LStep::Cfg(FOp::Dfa(false)),
+            LStep::Layer(b(4)),
+            LStep::Cfg(FOp::Add(s(""))),
+            LStep::Layer(b(5)),
+            LStep::Cfg(FOp::Add(s("never applied"))),
+        ],
+    };
+    let reuse_prefix = Tree::MP(s("svc."), vec![b(0), Tree::P(s(" "), Box::new(b(1))), Tree::MP(s(""), vec![b(2), b(3)])]);
+    let odd_prefix = Tree::N(
+        ODD_PREFIXES.iter().enumerate().map(|(i, p)| Tree::P(s(p), Box::new(b(i)))).collect::<Vec<_>>(),
+    );
+    let odd_prefix_stack = Tree::S(ODD_PREFIXES.iter().take(4).map(|p| LayerSpec::P(s(p))).collect(), Box::new(b(0)));
+    let many_pats = |init_default: bool, dfa: Option<bool>, ci: bool| {
+        let pats: Vec<String> = (0..120).map(|i| if i == 77 { s("NeedLe") } else { format!("#{}#", i) }).collect();
+        let mut ops: Vec<FOp> = vec![];
+        let init = if init_default {
+            ops.extend(pats.iter().map(|p| FOp::Add(p.clone())));
+            FInit::Default
+        } else {
+            FInit::From(pats)
+        };
+        if let Some(d) = dfa {
+            ops.push(FOp::Dfa(d));
+        }
+        if ci {
+            ops.push(FOp::Ci(true));
+        }
+        Tree::G(FChain { init, ops }, Box::new(b(0)))
+    };
+    let mnames = ["needle", "xNeedLex", "NEEDLE", "#5#", "a#119#", "#120#", "", "nee"];
+    let big_counts = {
+        let tree = Tree::N(vec![b(0), Tree::N(vec![b(1), b(2)]), Tree::P(s("p"), Box::new(b(3)))]);
+        let mut script = vec![];
+        script.push(SOp::R { kind: 2, name: s("h"), labels: vec![], target: s("mv"), level: 2, module: None });
+        for n in [5usize, 255, 256, 257, 65535, 65536, 65537, 70000] {
+            script.push(SOp::U { handle: 0, upd: Upd::HMany(1.5, n), via_clone: n % 2 == 0 });
+        }
+        (tree, script)
+    };
+    let big_counts_leaf = {
+        let mut script = vec![SOp::R { kind: 2, name: s("h"), labels: vec![], target: s("mv"), level: 2, module: None }];
+        for n in [256usize, 65537, 1 << 20] {
+            script.push(SOp::U { handle: 0, upd: Upd::HMany(1.5, n), via_clone: false });
+        }
+        (Tree::P(s("p"), Box::new(b(0))), script)
+    };
+    let long_a = "a.".repeat(100);
+    let long_name = format!("{}x", long_a);
+    let long_names: Vec<String> = vec![long_a.clone(), long_name.clone(), format!("{}{}", long_a, "é".repeat(2000)), "n".repeat(149), "n".repeat(150), "n".repeat(151)];
+    let long_tree = Tree::S(
+        vec![LayerSpec::P(s("p")), LayerSpec::G(FChain { init: FInit::Default, ops: vec![FOp::Add(format!("{}x", "a.".repeat(50)))] })],
+        Box::new(Tree::R { dflt: Box::new(b(0)), routes: vec![(3, format!("p.{}", long_a), b(1)), (3, format!("p.{}", "n".repeat(150)), b(2)), (3, s("p."), b(3))] }),
+    );
+    let long_refs: Vec<&str> = long_names.iter().map(|x| x.as_str()).collect();
+    let wide = Tree::N((0..24).map(|i| if i % 5 == 4 { Tree::P(s("w"), Box::new(b(i))) } else { b(i) }).collect());
+    let many_routes = Tree::R {
+        dflt: Box::new(b(0)),
+        routes: (0..40usize).map(|i| ((i % 4) as u8, format!("r{}", "ab".repeat(i % 7)) + &format!("{}", i % 3), b(i + 1))).collect(),
+    };
+    let mr_names = ["r", "r0", "r1", "rab", "rab1", "rabab2x", "rababab", "rabababababab0", "rabababababab0.x", "x"];
     vec![
+        ("router-sibling-routes", siblings, full_script(&sibling_names)),
+        ("router-sibling-routes-no-parent", rootless_siblings, full_script(&["a", "ab", "ac", "ar", "ax", "xyz", "xyz3", "xy", "", "b"])),
+        ("filter-builder-default-add", chain(FInit::Default, vec![FOp::Add(s("tokio")), FOp::Add(s("Tokio")), FOp::Add(s("bb8"))]), full_script(&bnames)),
+        ("filter-builder-default-untouched", chain(FInit::Default, vec![]), full_script(&bnames)),
+        ("filter-builder-from-untouched", chain(from(&["tokio", "bb8"]), vec![]), full_script(&bnames)),
+        ("filter-builder-add-case-variants-ci", chain(from(&["tokio"]), vec![FOp::Ci(true), FOp::Add(s("TOKIO")), FOp::Add(s("Hyper"))]), full_script(&bnames)),
+        ("filter-builder-ci-on-then-off", chain(from(&["tokio"]), vec![FOp::Ci(true), FOp::Dfa(false), FOp::Ci(false)]), full_script(&bnames)),
+        ("filter-builder-ci-off-then-on", chain(from(&["tokio"]), vec![FOp::Ci(false), FOp::Ci(true), FOp::Dfa(true)]), full_script(&bnames)),
+        ("filter-builder-add-empty", chain(from(&["tokio"]), vec![FOp::Add(s(""))]), full_script(&["", "a"])),
+        ("filter-builder-add-duplicate", chain(from(&["tokio", "tokio"]), vec![FOp::Add(s("tokio")), FOp::Add(s("hyper")), FOp::Add(s("hyper"))]), full_script(&bnames)),
+        ("filter-reused-layer-value", reuse_filter, full_script(&bnames)),
+        ("prefix-reused-layer-value", reuse_prefix, full_script(&["", "a", ".a"])),
+        ("prefix-dots-and-blanks", odd_prefix, full_script(&["", "a", ".a", " a "])),
+        ("prefix-dots-and-blanks-stacked", odd_prefix_stack, full_script(&["", "a", "."])),
+        ("filter-120-patterns-dfa-forced", many_pats(false, Some(true), false), full_script(&mnames)),
+        ("filter-120-patterns-auto", many_pats(false, Some(false), false), full_script(&mnames)),
+        ("filter-120-patterns-auto-ci", many_pats(false, Some(false), true), full_script(&mnames)),
+        ("filter-120-patterns-default-added-ci", many_pats(true, None, true), full_script(&mnames)),
+        ("record-many-large-fanout", big_counts.0, big_counts.1),
+        ("record-many-large-leaf", big_counts_leaf.0, big_counts_leaf.1),
+        ("long-names", long_tree, full_script(&long_refs)),
+        ("fanout-wide", wide, full_script(&["a"])),
+        ("router-40-routes", many_routes, full_script(&mr_names)),
         ("router-overlapping", overlapping, full_script(&names)),
         ("router-empty-route", empty_route, full_script(&names)),
         ("router-duplicates", dup, full_script(&names)),
@@ -1131,11 +1976,109 @@ fn corpus() -> Vec<(&'static str, Tree, Vec<SOp>)> {
     ]
 }
 
+/// Small-scope enumeration for the router: EVERY route table of at most three distinct patterns drawn from
+/// all strings over {a, b, q} up to `max_len` (a / b share the high nibble of their byte, a / q do not: both
+/// kinds of branching of a radix trie over nibbles), against EVERY name over the same alphabet up to
+/// `max_len + 1`.  Masks and kinds rotate with the table number.
+fn enum_router(out: &mut Out, max_len: usize, stride: usize, offset: usize) {
+    let mut strs: Vec<String> = vec![String::new()];
+    let mut frontier = vec![String::new()];
+    let mut names = strs.clone();
+    for l in 0..max_len + 1 {
+        let mut next = vec![];
+        for f in &frontier {
+            for c in ["a", "b", "q"] {
+                next.push(format!("{}{}", f, c));
+            }
+        }
+        if l < max_len {
+            strs.extend(next.iter().cloned());
+        }
+        names.extend(next.iter().cloned());
+        frontier = next;
+    }
+    let n = strs.len();
+    let mut tables: Vec<Vec<usize>> = vec![vec![]];
+    for i in 0..n {
+        tables.push(vec![i]);
+        for j in i + 1..n {
+            tables.push(vec![i, j]);
+            for k in j + 1..n {
+                tables.push(vec![i, j, k]);
+            }
+        }
+    }
+    for (ti, tab) in tables.iter().enumerate() {
+        if ti % stride != offset % stride {
+            continue;
+        }
+        let kind = ti % 3;
+        // every route covers `kind` (its own mask or ALL); one extra route of another kind is a decoy
+        let mut routes: Vec<(u8, String, Tree)> =
+            tab.iter().enumerate().map(|(x, i)| (if (ti + x) % 2 == 0 { 3 } else { kind as u8 }, strs[*i].clone(), b(x + 1))).collect();
+        if ti % 5 == 0 {
+            routes.push((((kind + 1) % 3) as u8, s("a"), b(9)));
+        }
+        let tree = Tree::R { dflt: Box::new(b(0)), routes };
+        let script: Vec<SOp> = names
+            .iter()
+            .enumerate()
+            .map(|(x, nm)| {
+                if (x + ti) % 2 == 0 {
+                    SOp::D { kind, name: nm.clone(), unit: None, desc: String::new() }
+                } else {
+                    SOp::R { kind, name: nm.clone(), labels: vec![], target: s("mv"), level: 2, module: None }
+                }
+            })
+            .collect();
+        out.case(&format!("enum-router len<={} table={}", max_len, ti));
+        out.count("case: enumerated route table");
+        run_case(out, &tree, &script);
+    }
+}
+
+/// Small-scope enumeration for handles: EVERY sequence of `len` calls from a small alphabet of calls (two
+/// values per call type) on ONE handle of each kind, behind a nested fan-out and behind no fan-out.
+fn enum_updates(out: &mut Out, len: usize) {
+    let tree = Tree::N(vec![b(0), Tree::N(vec![b(1), Tree::P(s("p"), Box::new(b(2)))])]);
+    let alphabets: [Vec<Upd>; 3] = [
+        vec![Upd::CInc(1), Upd::CInc(2), Upd::CAbs(1), Upd::CAbs(2)],
+        vec![Upd::GSet(5.0), Upd::GSet(6.0), Upd::GInc(1.0), Upd::GDec(1.0), Upd::GInc(5.0)],
+        vec![Upd::HRec(5.0), Upd::HRec(6.0), Upd::HMany(5.0, 2), Upd::HMany(5.0, 1)],
+    ];
+    for (kind, alpha) in alphabets.iter().enumerate() {
+        let total = alpha.len().pow(len as u32);
+        let mut script = vec![];
+        for seq in 0..total {
+            // a fresh handle per sequence
+            script.push(SOp::R { kind, name: s("m"), labels: vec![], target: s("mv"), level: 2, module: None });
+            let mut x = seq;
+            for _ in 0..len {
+                script.push(SOp::U { handle: seq, upd: alpha[x % alpha.len()].clone(), via_clone: (x / alpha.len()) % 3 == 1 });
+                x /= alpha.len();
+            }
+        }
+        out.case(&format!("enum-updates kind={} len={}", KINDS[kind], len));
+        out.count("case: enumerated call sequences on one handle");
+        run_case(out, &tree, &script);
+    }
+}
+
 pub fn run(cfg: &Cfg, out: &mut Out) {
     for (tag, tree, script) in corpus() {
         out.case(&format!("corpus {}", tag));
         out.count("case: corpus");
         run_case(out, &tree, &script);
+    }
+    enum_updates(out, 3);
+    if cfg.thorough {
+        enum_router(out, 2, 1, 0);
+        // a seed-dependent third of the 10701 tables over strings up to length 3
+        enum_router(out, 3, 3, cfg.seed as usize);
+        enum_updates(out, 4);
+    } else {
+        // all 378 tables over strings up to length 2
+        enum_router(out, 2, 1, 0);
     }
     let root = Rng::new(cfg.seed);
     for i in 0..cfg.cases {
@@ -1147,6 +2090,10 @@ pub fn run(cfg: &Cfg, out: &mut Out) {
         let mut next = 0usize;
         let mut budget: isize = if cfg.thorough { 24 } else { 14 };
         let tree = gen_tree(&mut r, &pool, depth, &mut next, &mut budget, true, "");
+        let mut pool = pool;
+        hot_names(&tree, "", &mut pool.hot);
+        pool.hot.sort();
+        pool.hot.dedup();
         let n = r.range(6, 24);
         let script = gen_script(&mut r, &pool, n);
         run_case(out, &tree, &script);
